@@ -23,6 +23,8 @@ def layout_labels(lay, plan, stats):
         stats.label("read_only", r["acc"] == "r")
         stats.label("write_only", r["acc"] == "w")
     stats.label("map_alignment", lay["al"] > 0)
+    stats.label("aliased_family", lay.get("family") == "aliased")
+    stats.label("top_register_starts_at_power_of_two", lay.get("family") == "aliased" and plan[-1][0] & (plan[-1][0] - 1) == 0)
     stats.label("high_base_address", lay.get("base", 0) >= 256)
     stats.label("late_registers", lay.get("late", 0) > 0 and len(lay["regs"]) > 1)
     stats.label("very_long_register", any(e - s > 256 for s, e in plan))
@@ -115,6 +117,12 @@ def run_case(lay, stim, ov, stats, prop, check_reads, check_writes):
         sim.simulate(top, tb)
     except ValueError as e:
         if deliberate_refusal(e):
+            # the refusal itself says when it may happen: "registers must be naturally aligned or the
+            # overlap constraint must be relaxed" - a layout whose register ranges are all
+            # naturally aligned is balanceable for every sharing limit
+            if all(s_ % (1 if e_ - s_ <= 1 else 1 << (e_ - s_ - 1).bit_length()) == 0 for s_, e_ in plan):
+                raise Violation(f"{prop}/legal-layout-refused", f"every register range of {plan} is naturally aligned, yet "
+                                f"elaboration with shadow_overlaps={ov} was refused: {str(e)[:160]}")
             return "refused", facts
         raise
     stats.add("simulated_cycles", len(cycles))
